@@ -2,7 +2,7 @@
    Only statements, closed by [exact], and non-vacuity examples.
 
    [Process] (Model/Schema.v) models Modules.Process over abstract module sources; [TreeInv], [ForestInv], the
-   stages [stage_*], [final_applied], [heights_okb] are in Spec/C04.v.  Entries of the model are immutable trees:
+   stages [stage_*], [final_applied] are in Spec/C04.v.  Entries of the model are immutable trees:
    parent pointers and object identity do not exist in it; those two clauses of the property are checked on the
    implementation by the pointer-level walker of harness/go/resolve.go (treeviol), see check/props/c04.py. *)
 From Coq Require Import List NArith Bool.
@@ -20,21 +20,19 @@ Theorem C04_T1_tree_invariant : forall SC ignoreCirc ignoreNotSupported order F,
 Proof. exact Process_TreeInv_weak. Qed.
 
 (* T1 (all clauses, "every child of a choice is a case" included), for every module set with pairwise distinct module
-   names and every visiting order that visits every module (what Go's sorted iteration does) -- PARTIAL in one respect
-   only: the residual hypothesis [heights_okb]: no depth measurement that fixes FixChoice's fuel was cut off at
-   entry_fuel (if one were, FixChoice would not reach the nodes below the cut and the clause could fail there).
-   Missing: a bound of the heights of all trees by entry_fuel (a path-counting argument over sources, uses chains and
-   augment chains).  [heights_okb] is computable; check/props/c04.py evaluates it, extracted, on every clean case. *)
-Theorem C04_T1_choice_clause_partial : forall SC ignoreCirc ignoreNotSupported order F,
+   names and every visiting order that visits every module (what Go's sorted iteration does).  No residual hypothesis:
+   FixChoice in the Go code is plain structural recursion over e.Dir and the rpc's input/output; the model's
+   [fix_choice] runs on fuel that Process derives from the structural height of the highest tree ([height],
+   Model/Schema.v: twice that height plus a margin), so it reaches every node however deep augments grafted subtrees
+   (Proofs/TreeInvProofs.v HeightLe_height, fix_all_strict). *)
+Theorem C04_T1_choice_clause : forall SC ignoreCirc ignoreNotSupported order F,
   NoDup (map m_name SC) -> (forall m, In m SC -> In (m_name m) order) ->
-  Process SC ignoreCirc ignoreNotSupported order = ROk F ->
-  heights_okb SC ignoreCirc order = true -> ForestInv true F.
+  Process SC ignoreCirc ignoreNotSupported order = ROk F -> ForestInv true F.
 Proof. exact Process_TreeInv_choice. Qed.
 
-Theorem C04_T1_choice_clause_perm_partial : forall SC ignoreCirc ignoreNotSupported order F,
+Theorem C04_T1_choice_clause_perm : forall SC ignoreCirc ignoreNotSupported order F,
   NoDup (map m_name SC) -> Permutation (map m_name SC) order ->
-  Process SC ignoreCirc ignoreNotSupported order = ROk F ->
-  heights_okb SC ignoreCirc order = true -> ForestInv true F.
+  Process SC ignoreCirc ignoreNotSupported order = ROk F -> ForestInv true F.
 Proof. exact Process_TreeInv_choice_perm. Qed.
 
 (* the reporting pass Augment(true) applies no augment: after the rounds of {retry loop; FixChoice} have reached their
@@ -44,11 +42,20 @@ Theorem C04_T1_reporting_pass_idle : forall SC ignoreCirc order,
   NoDup (map m_name SC) -> (forall m, In m SC -> In (m_name m) order) -> final_applied SC ignoreCirc order = 0.
 Proof. exact reporting_pass_idle. Qed.
 
-(* the general form, for arbitrary visiting orders: under the two computable side conditions *)
-Theorem C04_T1_choice_clause_side_conditions : forall SC ignoreCirc ignoreNotSupported order F,
+(* the general form, for arbitrary module sets and visiting orders (duplicate module names, orders that skip
+   modules): under the one computable side condition that the reporting pass applies nothing *)
+Theorem C04_T1_choice_clause_side_condition : forall SC ignoreCirc ignoreNotSupported order F,
   Process SC ignoreCirc ignoreNotSupported order = ROk F ->
-  final_applied SC ignoreCirc order = 0 -> heights_okb SC ignoreCirc order = true -> ForestInv true F.
-Proof. exact Process_TreeInv_full_b. Qed.
+  final_applied SC ignoreCirc order = 0 -> ForestInv true F.
+Proof. exact Process_TreeInv_full. Qed.
+
+(* FixChoice over a whole forest with the fuel Process gives it establishes the clause on every proper forest *)
+Theorem C04_fix_all_establishes : forall F, ForestInv false F -> ForestInv true (fix_all F).
+Proof. exact fix_all_strict. Qed.
+
+(* ... because that fuel is derived from a height that is one: every tree is at most as high as its [height] *)
+Theorem C04_height_is_height : forall e, HeightLe (height e) e.
+Proof. exact HeightLe_height. Qed.
 
 (* what establishes the clause: FixChoice with fuel twice the height of a proper tree makes every child of every
    choice a case and keeps the rest of the invariant; with any fuel it keeps the other clauses, names and kinds *)
@@ -134,7 +141,7 @@ Definition ex_mod : module :=
 
 Example C04_ex_clean : exists F, Process [ex_mod] false false [n_m] = ROk F /\
   NoDup (map m_name [ex_mod]) /\ (forall m, In m [ex_mod] -> In (m_name m) [n_m]) /\
-  final_applied [ex_mod] false [n_m] = 0 /\ heights_okb [ex_mod] false [n_m] = true /\
+  final_applied [ex_mod] false [n_m] = 0 /\
   match locate_pos F (n_m, [SChild n_a; SChild n_c; SChild n_b; SChild n_b]) with
   | Some e => e_kind e = KLeaf | None => False end.
 Proof.
